@@ -410,11 +410,25 @@ func (fc *Client) SetUserAgent(ua string) {
 	fc.userAgent = ua
 }
 
+// checkServerName refuses what is not a server name before it is made the host
+// of a matrix:// URL. net/url and net/http tidy such a host up - they split off
+// "user@", drop an empty port, end the host at "/", "?" or "#" - and the
+// request would go to whatever valid name is left over.
+func checkServerName(serverName spec.ServerName) error {
+	if _, _, valid := spec.ParseAndValidateServerName(serverName); !valid {
+		return fmt.Errorf("gomatrixserverlib: invalid server name %q", serverName)
+	}
+	return nil
+}
+
 // LookupUserInfo gets information about a user from a given matrix homeserver
 // using a bearer access token.
 func (fc *Client) LookupUserInfo(
 	ctx context.Context, matrixServer spec.ServerName, token string,
 ) (u UserInfo, err error) {
+	if err = checkServerName(matrixServer); err != nil {
+		return
+	}
 	url := url.URL{
 		Scheme:   "matrix",
 		Host:     string(matrixServer),
@@ -463,6 +477,9 @@ func (fc *Client) LookupUserInfo(
 func (fc *Client) GetServerKeys(
 	ctx context.Context, matrixServer spec.ServerName,
 ) (gomatrixserverlib.ServerKeys, error) {
+	if err := checkServerName(matrixServer); err != nil {
+		return gomatrixserverlib.ServerKeys{}, err
+	}
 	url := url.URL{
 		Scheme: "matrix",
 		Host:   string(matrixServer),
@@ -486,6 +503,9 @@ func (fc *Client) GetServerKeys(
 func (fc *Client) GetVersion(
 	ctx context.Context, s spec.ServerName,
 ) (res Version, err error) {
+	if err = checkServerName(s); err != nil {
+		return
+	}
 	// Construct a request for version information
 	url := url.URL{
 		Scheme: "matrix",
@@ -515,6 +535,9 @@ func (fc *Client) LookupServerKeys(
 	ctx context.Context, matrixServer spec.ServerName,
 	keyRequests map[gomatrixserverlib.PublicKeyLookupRequest]spec.Timestamp,
 ) ([]gomatrixserverlib.ServerKeys, error) {
+	if err := checkServerName(matrixServer); err != nil {
+		return nil, err
+	}
 	url := url.URL{
 		Scheme: "matrix",
 		Host:   string(matrixServer),
@@ -580,6 +603,9 @@ func (fc *Client) LookupServerKeys(
 func (fc *Client) CreateMediaDownloadRequest(
 	ctx context.Context, matrixServer spec.ServerName, mediaID string,
 ) (*http.Response, error) {
+	if err := checkServerName(matrixServer); err != nil {
+		return nil, err
+	}
 	// Set allow_remote=false here so that we avoid loops:
 	// https://github.com/matrix-org/synapse/pull/1992
 	requestURL := "matrix://" + string(matrixServer) + "/_matrix/media/v3/download/" + string(matrixServer) + "/" + mediaID + "?allow_remote=false"
